@@ -41,7 +41,15 @@ def cases(draw, tier):
     bn = sorted({t[1] for tr in g["triples"] for t in (tr[0], tr[2]) if t[0] == "bnode"})
     ren = {}
     if bn and draw(st.booleans()):
-        targets = list(draw(st.permutations(bn))) if draw(st.booleans()) else ["_:r%d" % (len(bn) - i) for i in range(len(bn))]
+        k = draw(st.integers(0, 2))
+        if k == 0:
+            targets = list(draw(st.permutations(bn)))
+        elif k == 1:
+            targets = ["_:r%d" % (len(bn) - i) for i in range(len(bn))]
+        else:
+            # labels that extend each other (_:p, _:p1, _:p10, _:p1x ...): a tokenizer must not cut a label where another ends
+            pool = ["_:p", "_:p1", "_:p10", "_:p1x", "_:p100", "_:px", "_:p_1", "_:p1.0"]
+            targets = list(draw(st.permutations(pool)))[:len(bn)] if len(bn) <= len(pool) else ["_:r%d" % i for i in range(len(bn))]
         ren = dict(zip(bn, targets))
     case = {"g": g, "cfg": cfg, "target": target, "thr": thr, "perm": perm, "rename": ren}
     if dups:
